@@ -701,3 +701,139 @@ def run_unsigned_sub(run, P):
         if _t.time() - t0 > 0.5:
             run.notes.append('R-RANGE (unsigned subtraction): %s took %.1fs' % (name, _t.time() - t0))
     run.require_count(n >= (10 if run.cfg == 'base' else 3) or run.fixture_mode, 'R-RANGE (unsigned subtraction): fewer than 10 constant subtractions from unsigned values found')
+
+
+# ---------------------------------------------------------------------------------------------------------------- C16
+def run_scan_cursor(run, P, units=('coap_uri.c',)):
+    """R-LEN-READ (the scanning cursor): cursor / remaining-length pairs are computed - a local byte pointer Q and an unsigned L that some
+    basic block steps together (`++Q; --L`).  Every read through Q (`*Q`) lies on a path that knows L non-zero.  The scan loops end either
+    at the byte looked for or at the end of the input; a test made after the loop that reads `*Q` first (`*q != ']'` without `!len ||`) reads
+    the byte BEHIND the input, and whether a malformed URI is then accepted depends on what lies there."""
+    run.rule('R-LEN-READ')
+    n = 0
+    for f in sorted(P.lib_funcs(), key=lambda f: f['name']):
+        if f['unit'] not in units:
+            continue
+        pairs = set()
+        for b in f['blocks']:
+            incs = set(ap(ev['e'].get('e')) for ev in b['elems'] if ev['e'].get('k') == 'un' and ev['e'].get('op') == '++' and isinstance(strip(ev['e'].get('e')), dict) and strip(ev['e']['e']).get('p'))
+            decs = set(ap(ev['e'].get('e')) for ev in b['elems'] if ev['e'].get('k') == 'un' and ev['e'].get('op') == '--' and isinstance(strip(ev['e'].get('e')), dict) and strip(ev['e']['e']).get('s') == 0 and not strip(ev['e']['e']).get('p'))
+            for q in incs:
+                for l in decs:
+                    if q and l and q.startswith('v') and l.startswith('v') and '->' not in q and '->' not in l:
+                        pairs.add((q, l))
+        # a cursor paired with exactly one length
+        byq = collections.defaultdict(set)
+        for q, l in pairs:
+            byq[q].add(l)
+        pairs = dict((q, list(ls)[0]) for q, ls in byq.items() if len(ls) == 1)
+        if not pairs:
+            continue
+        name = f['name']
+        rep = set()
+        cnt = [0]
+
+        def on_event(ev, env, ctx):
+            t = ev['e']
+            if t.get('k') == 'un' and t.get('op') == '*' and ap(t.get('e')) in pairs:
+                L = pairs[ap(t['e'])]
+                lo, hi, ex = env.intf(L)
+                ok = lo >= 1 or 0 in ex
+                run.oblige('R-LEN-READ', ok, '%s:scan-cursor-read' % name)
+                if not ok and ev['loc'] not in rep:
+                    rep.add(ev['loc'])
+                    run.violation('R-LEN-READ', name, ev['loc'], 'cursor-read-without-remaining-length',
+                                  'the scanning cursor is dereferenced on a path that does not know the remaining length non-zero: after a scan that ran to the end of the input this '
+                                  'reads the byte behind it, and what the function decides then depends on memory that is not part of the URI', ctx.path())
+            return None
+        derefs = set(ev['loc'] for b, ev in P.events(f) if ev['e'].get('k') == 'un' and ev['e'].get('op') == '*' and ap(ev['e'].get('e')) in pairs)
+        if not derefs:
+            continue
+        n += len(derefs)
+        run.instance('R-LEN-READ', '%s: %d reads through a scanning cursor' % (name, len(derefs)))
+        solve(f, Env(), on_event, None, None, None, max_envs=768)
+    run.require_count(n >= (5 if run.cfg == 'base' else 1) or run.fixture_mode, 'R-LEN-READ (scanning cursor): fewer than 5 reads through a (cursor, remaining length) pair found')
+
+
+# ---------------------------------------------------------------------------------------------------------------- C17
+def run_copy_loop_exits(run, P, units=('coap_subscribe.c',)):
+    """R-PERSIST (the copy loop runs to the end of the old file): an updater (a function that calls rename()) rewrites the file by copying
+    the records to keep in a loop.  A loop that writes to a stream is left towards the rename() only through its header (the read that
+    reports the end of the old file): an edge that leaves the loop from inside its body - a `break` on the record being deleted, a `break`
+    after a failed write - and still reaches rename() replaces the good file by one that lacks every record behind that point."""
+    from rules.r_sizefill import natural_loops
+    run.rule('R-PERSIST')
+    WRITE = ('fprintf', 'fwrite', 'fputs', 'fputc')
+    n = 0
+    for f in sorted(P.lib_funcs(), key=lambda f: f['name']):
+        if f['unit'] not in units:
+            continue
+        B = f['B']
+        ren = [b['id'] for b, ev in P.events(f) if any(isinstance(t, dict) and t.get('k') == 'call' and t.get('fn') == 'rename' for t in walk(ev['e']))]
+        for b in f['blocks']:
+            c = (b.get('term') or {}).get('cond')
+            if c is not None and any(isinstance(t, dict) and t.get('k') == 'call' and t.get('fn') == 'rename' for t in walk(c)):
+                ren.append(b['id'])
+        if not ren:
+            continue
+        try:
+            loops = natural_loops(f)
+        except KeyError:
+            continue
+        name = f['name']
+
+        def reach(frm):
+            seen, work = set(), [frm]
+            while work:
+                i = work.pop()
+                if i in seen:
+                    continue
+                seen.add(i)
+                if not B[i].get('noret'):
+                    work.extend(succs(B[i]))
+            return seen
+        for h, body in sorted(loops.items()):
+            def writes(bid):
+                for ev in B[bid]['elems']:
+                    for t in walk(ev['e']):
+                        if isinstance(t, dict) and t.get('k') == 'call' and (t.get('fn') in WRITE or (t.get('fn') in P.funcs and P.funcs[t['fn']]['params'] and 'FILE' in (P.funcs[t['fn']]['params'][0].get('t') or '') and 'write' in t['fn'])):
+                            return True
+                c = (B[bid].get('term') or {}).get('cond')
+                if c is not None:
+                    for t in walk(c):
+                        if isinstance(t, dict) and t.get('k') == 'call' and (t.get('fn') in WRITE or (t.get('fn') in P.funcs and 'write' in t['fn'] and P.funcs[t['fn']]['params'] and 'FILE' in (P.funcs[t['fn']]['params'][0].get('t') or ''))):
+                            return True
+                return False
+            if not any(writes(bid) for bid in body):
+                continue
+            # outermost writing loops only (an inner loop's exit into the outer body is judged through the outer loop)
+            n += 1
+            run.instance('R-PERSIST', '%s: copy loop at block %d' % (name, h))
+            for bid in sorted(body):
+                if bid == h:
+                    continue
+                for s_ in succs(B[bid]):
+                    if s_ in body:
+                        continue
+                    # an exit from inside the body
+                    if any(o_h != h and bid in o_body and s_ in o_body for o_h, o_body in loops.items()):
+                        continue          # leaves an inner loop only
+                    r = reach(s_)
+                    bad = any(x in r for x in ren)
+                    # leaving because the READ said so (end of file, unparsable record) is the loop's normal end; what is judged is an exit
+                    # decided by the record being handled (a condition over a parameter of the updater) or by a failed write
+                    c = (B[bid].get('term') or {}).get('cond')
+                    why = None
+                    if c is not None:
+                        if any(isinstance(t, dict) and t.get('k') == 'call' and (t.get('fn') in WRITE or 'write' in (t.get('fn') or '')) for t in walk(c)):
+                            why = 'a failed write'
+                        elif any(isinstance(t, dict) and t.get('k') == 'var' and 'pi' in t and not (t.get('t') or '').startswith('FILE') for t in walk(c)):
+                            why = 'a test on the record this call is about'
+                    bad = bad and why is not None
+                    loc = (B[bid].get('term') or {}).get('loc') or (B[bid]['elems'][-1]['loc'] if B[bid]['elems'] else f['loc'])
+                    run.oblige('R-PERSIST', not bad, '%s:copy-loop-exit' % name)
+                    if bad:
+                        run.violation('R-PERSIST', name, loc, 'copy-loop-left-early:%d' % len([1 for x in sorted(body) if x < bid]),
+                                      'the loop that copies the old file into the new one is left from inside its body here because of %s, and rename() is still reached: every '
+                                      'record behind this point is missing from the file that replaces the good one' % why)
+    run.require_count(n >= (3 if run.cfg == 'base' else 0) or run.fixture_mode, 'R-PERSIST (copy loop exits): fewer than 3 copy loops found in the updaters')
